@@ -16,7 +16,7 @@ from harness.drivers import shutdown as sd
 STREAM = ["disconnect", "eof", "peer_close", "proto_error"]
 KINDS = STREAM + ["local_close"]
 API_QUICK = ["recv", "recv_stderr", "send", "sendall", "exec_command", "invoke_shell", "recv_exit_status",
-             "open_channel", "open_session", "global_request", "renegotiate_keys", "auth_password",
+             "open_channel", "open_session", "global_request", "request_port_forward", "renegotiate_keys", "auth_password",
              "srt_auth_password", "accept"]
 API_MORE = ["get_pty", "invoke_subsystem", "auth_publickey", "srt_auth_publickey"]
 LABEL = {"before": "before", "mid": "racing", "at_unlink": "racing", "at_pclose": "racing",
@@ -24,9 +24,10 @@ LABEL = {"before": "before", "mid": "racing", "at_unlink": "racing", "at_pclose"
 NTRACE = 4
 
 
-def consts(apis, n=1, kinds=("eof", "local_close"), fix=True, omit="none", modes=("blocking", "timed"), **kw):
+def consts(apis, n=1, kinds=("eof", "local_close"), fix=True, omit="none", modes=("blocking", "timed"), nopoll=(), **kw):
     d = {"N": n, "Apis": set(apis), "Modes": set(modes), "LossKinds": set(kinds),
-         "FixAccept": fix, "FixEvent": fix, "FixEnsure": fix, "FixProxy": fix, "Omit": omit}
+         "FixAccept": fix, "FixEvent": fix, "FixEnsure": fix, "FixProxy": fix, "Omit": omit,
+         "NoPoll": "@{%s}" % ", ".join('"%s"' % x for x in nopoll)}
     d.update(kw)
     return d
 
@@ -194,7 +195,11 @@ def run(c):
                  "repaired loops, every API, one caller, loss by EOF / close() / proxy exit: safety + liveness"),
              job("Shutdown", cfg_text(spec="FairSpec", constants=consts(papis, n=1, kinds=("proxy_exit",), fix=False),
                                       invariants=["TypeOK"], properties=LIVE),
-                 "sensitivity: pinned ProxyCommand.recv (no end of file) - transport never inactive", expect="<temporal>")]
+                 "sensitivity: pinned ProxyCommand.recv (no end of file) - transport never inactive", expect="<temporal>"),
+             job("Shutdown", cfg_text(constants=consts(["global_request", "request_port_forward"], n=1, nopoll=("global",)),
+                                      invariants=SAFETY),
+                 "sensitivity: global_request waits on completion_event without polling `active` (stuck on close())",
+                 expect="NoStuck")]
     pred_f, pred_r = widen(g_f.cases()), widen(g_r.cases())
     if set(pred_f) != set(pred_r):
         raise Machinery("pinned and repaired models emit different case sets")
@@ -215,6 +220,9 @@ def run(c):
                          (["srt_auth_password"], "ensure_session")):
             specs.append(("Shutdown", cfg_text(constants=consts(fams, n=2 if nm == "accept" else 1, fix=False), invariants=SAFETY),
                           "sensitivity: pinned %s wait" % nm, "NoStuck"))
+        for fam_, api_ in (("open", "open_session"), ("rekey", "renegotiate_keys"), ("auth", "auth_password")):
+            specs.append(("Shutdown", cfg_text(constants=consts([api_], n=1, nopoll=(fam_,)), invariants=SAFETY),
+                          "sensitivity: %s waits on its event without polling `active`" % api_, "NoStuck"))
         for om in ("unlink", "clear", "notify"):
             specs.append(("Shutdown", cfg_text(constants=consts(["recv", "accept", "global_request"], n=2, omit=om), invariants=SAFETY),
                           "sensitivity: shutdown block without '%s'" % om, "NoStuck|Order"))
@@ -258,9 +266,15 @@ def run(c):
         return ("Transport", "SRT")[k % 2]
 
     chosen = []
+    fixed = []      # fixed stratum (every tier, every seed): every API blocked before the loss x every loss kind
     if quick:
         for (api, kind, plan, modes) in suspects:
             chosen.append((api, kind, plan, [rnd.choice(modes)]))
+        for o in sorted(others):
+            if o[2] == "before":
+                fixed.append((o[0], o[1], o[2], ["blocking"]))
+        others = [(o[0], o[1], o[2], [m for m in o[3] if not (o[2] == "before" and m == "blocking")]) for o in others]
+        others = [o for o in others if o[3]]
         rnd.shuffle(others)
         seen, rest = set(), []
         for o in others:
@@ -275,6 +289,8 @@ def run(c):
             chosen.append((o[0], o[1], o[2], [rnd.choice(o[3])]))
     else:
         chosen = [(a, k, p, m) for (a, k, p, m) in suspects + others]
+    for (api, kind, plan, modes) in fixed:
+        tasks.append([case_of(api, modes[0], kind, plan, cls_for(api, 0))])
     for i, (api, kind, plan, modes) in enumerate(chosen):
         cl = cls_for(api, rnd.randrange(2) if quick else i)
         grp = [case_of(api, m, kind, plan, cl) for m in modes]
